@@ -133,6 +133,16 @@ def eval_short(case):
     return check_signal(case, 64, (6, 14), cmbs, ('short',) + tuple(case))
 
 
+def eval_long(case):
+    """Long real-valued recordings, cut at every start offset of one period: whatever block / chunk structure an implementation
+    uses internally, every alignment of the half-waves relative to absolute sample indices (2**16, 60 s, ...) is tried."""
+    w, k, fe = case
+    o = S.resolve((S.LONG_DECL[w],))
+    sig = S.word_signal(w)[k:]
+    cmbs = [(None, True, 0, fe), ({'n_cycles': 4}, True, 3, fe)] if k % 8 == 0 else [(None, True, 0, fe)]
+    return check_signal(sig, o['fs'], o['f_range'], cmbs, ('long', w, k, fe))
+
+
 def spaces(tier, seed):
     tiny = _Tiny(tier)
     words = _Words(tier)
@@ -154,18 +164,24 @@ def spaces(tier, seed):
         out.append(ProductSpace('words-W(6,5)', S.word_dims(S.alphabet(6), 5), words,
                                 describe='all 5-letter words over 6 letters, fs=64 band (6,14)',
                                 bounds={'combos': len(words.cmbs), 'letters': S.alphabet(6)}))
+        from bcmc.explore import ListSpace as _LS
+        lc = [['@B', k, fe] for k in range(64 if tier == 'quick' else 200) for fe in (None,)] + \
+             [[w, k, fe] for w in ('@A', '@C', '@D') for k in (0, 1) for fe in (None, 'peak', 'trough')] + [['@B', 7, 'peak'], ['@B', 8, 'trough']]
+        out.append(_LS('long-recordings-x-offsets', lc, eval_long,
+                       describe='a 70000-sample recording (1430 cycles, longer than 2**16) cut at each of %d start offsets + three more '
+                                'long recordings (fs 500 / 1017.25 / 2000) x first_extrema' % (64 if tier == 'quick' else 200)))
     if tier != 'quick':
-        out.append(ProductSpace('tiny{-1,0,1}^12', [[-1, 0, 1]] * 12, tiny, bounds={'combos': len(tiny.cmbs)},
-                                describe='every signal in {-1,0,1}^12, fs=8, band (1,3), 5/9-tap filter'))
+        out.append(ProductSpace('tiny{-1,0,1}^11', [[-1, 0, 1]] * 11, tiny, bounds={'combos': len(tiny.cmbs)},
+                                describe='every signal in {-1,0,1}^11, fs=8, band (1,3), 5/9-tap filter'))
         crops = [[i, c0, c1, list(fr)] for i in range(6) for c0 in range(0, 16) for c1 in range(0, 9)
                  for fr in ((6, 14), (5, 12), (7, 16), (6, 10))]
         out.append(ListSpace('sensitive-crops-deep', crops, eval_crop))
-        out.append(ProductSpace('short{-2,0,2}^11', [[-2, 0, 2]] * 11, eval_short))
-        out.append(ProductSpace('tiny2{-1,0,1}^11', [[-1, 0, 1]] * 11, t2, bounds={'combos': len(t2.cmbs)}))
+        out.append(ProductSpace('short{-2,0,2}^10', [[-2, 0, 2]] * 10, eval_short))
+        out.append(ProductSpace('tiny2{-1,0,1}^10', [[-1, 0, 1]] * 10, t2, bounds={'combos': len(t2.cmbs)}))
         tp = _Tiny(tier)
-        tp.cmbs = [c for c in tp.cmbs if c[1]]          # 8 samples < 9 taps: only with padding
-        out.append(ProductSpace('tiny{-2..2}^8', [[-2, -1, 0, 1, 2]] * 8, tp, bounds={'combos': len(tp.cmbs)},
-                                describe='every signal in {-2..2}^8 (pad=True combinations)'))
+        tp.cmbs = [c for c in tp.cmbs if c[1]]          # 7 samples < 9 taps: only with padding
+        out.append(ProductSpace('tiny{-2..2}^7', [[-2, -1, 0, 1, 2]] * 7, tp, bounds={'combos': len(tp.cmbs)},
+                                describe='every signal in {-2..2}^7 (pad=True combinations)'))
         al = S.alphabet(8, seed, extra=0)
         out.append(ProductSpace('words-W(8,5)', S.word_dims(al, 5), words, bounds={'combos': len(words.cmbs), 'letters': al}))
         ex = S.alphabet(0, seed, extra=2) + S.alphabet(3)
